@@ -245,6 +245,34 @@ fn step<T: Elem, const N: usize>(sv: &mut SmallVec<T, N>, model: &mut Vec<T>, op
             if bigger.cmp(sv) != mb.cmp(model) || (bigger == *sv) != (mb == *model) {
                 return Some("comparison with a longer vector differs from Vec".into());
             }
+            // a panel of other vectors (shorter / longer, smaller / larger at the first difference), each built
+            // in the inline-first and in the heap representation: ==, cmp and partial_cmp as for Vec
+            const PANEL: [&[u8]; 9] = [&[], &[0], &[1], &[2], &[0, 0], &[0, 2], &[1, 0], &[2, 1, 1], &[0, 0, 0, 0]];
+            for other in PANEL {
+                let mo: Vec<T> = other.iter().map(|&v| T::make(v)).collect();
+                for heap in [false, true] {
+                    let mut so: SmallVec<T, N> = if heap { SmallVec::with_capacity(N + 3) } else { SmallVec::new() };
+                    for &v in other {
+                        so.push(T::make(v));
+                    }
+                    let (a, b): (&SmallVec<T, N>, &Vec<T>) = (&*sv, &*model);
+                    if a.cmp(&so) != b.cmp(&mo)
+                        || so.cmp(a) != mo.cmp(b)
+                        || a.partial_cmp(&so) != b.partial_cmp(&mo)
+                        || (*a == so) != (*b == mo)
+                        || (*a < so) != (*b < mo)
+                    {
+                        return Some(format!(
+                            "comparison of {:?} with {:?} ({}): cmp {:?}, Vec {:?}",
+                            vals(model),
+                            other,
+                            if heap { "heap capacity" } else { "inline first" },
+                            a.cmp(&so),
+                            b.cmp(&mo)
+                        ));
+                    }
+                }
+            }
         }
         Op::IterRef => {
             let a: Vec<u8> = (&*sv).into_iter().map(|x| x.val()).collect();
